@@ -22,53 +22,77 @@ for coord in ("jacobi", "democraticheliocentric", "whds", "barycentric"):
                 configs.append(("whfast", dict(coordinates=coord, corrector=corr, kernel=kernel, corrector2=c2)))
 for ty in ("1", "4", "cl4", "cm2", "10,6,4", "h8,4,4"):
     configs.append(("saba", dict(type=ty)))
+thorough = os.environ.get("VERIF_TIER", "quick") == "thorough"
+PATTERNS = ("steps", "integrate-exact", "integrate-reversal", "edit-recalc")
+idx = 0
 for integ, opts in configs:
     for safe in (1, 0):
         for split in ("all", "tp0", "tp1", "var", "negdt"):
-            n = rng.randint(3, 6)
-            sim = rebound.Simulation()
-            sim.add(m=1.0)
-            for i in range(1, n):
-                sim.add(m=10 ** (-rng.uniform(3, 6)), a=1.0 + 0.6 * i, e=rng.uniform(0, 0.1), inc=rng.uniform(0, 0.05), f=rng.uniform(0, 6))
-            sim.move_to_com()
-            sim.integrator = integ
-            sim.dt = 0.05
-            ri = sim.ri_whfast if integ == "whfast" else sim.ri_saba
-            for k, v in opts.items():
-                setattr(ri, k, v)
-            ri.safe_mode = safe
-            if split in ("tp0", "tp1"):
-                sim.N_active = rng.randint(1, n - 1)
-                sim.testparticle_type = 1 if split == "tp1" else 0
-            if split == "negdt":
-                sim.dt = -0.05
-            if split == "var":
-                if integ != "whfast" or opts.get("coordinates") != "jacobi" or opts.get("kernel", "default") != "default":
-                    continue      # variations are only supported by WHFast in Jacobi coordinates with the default kernel
-                var = sim.add_variation()
-                for vp in var.particles:
-                    vp.x = rng.normal() * 1e-3; vp.vy = rng.normal() * 1e-3; vp.z = rng.normal() * 1e-3
-                if rng.chance(0.5):
-                    sim.init_megno()
-            tr.rbv_trace_reset()
-            try:
-                sim.steps(3)
-                sim.synchronize()
-            except Exception as e:
-                out.append(dict(integ=integ, opts=opts, safe=safe, split=split, error=str(e)))
-                continue
-            calls = [l.split() for l in tr.rbv_trace_get().decode().splitlines()]
-            pairs = sorted({(int(c[1]), int(c[2])) for c in calls})
-            out.append(dict(integ=integ, opts=opts, safe=safe, split=split, N=n, N_active=sim.N_active,
-                            tpt=sim.testparticle_type, ncalls=len(calls), pairs=pairs,
-                            routines=sorted({c[0] for c in calls})))
+          # further factors, fully crossed in the thorough tier, rotated with the seed in quick (every pair of
+          # (pattern, keep) with (configuration, safe, split) values is reached within a few seeds)
+          idx += 1
+          fac = [(pt, kp) for pt in PATTERNS for kp in (0, 1)]
+          for pattern, keep in (fac if thorough else [fac[(idx + seed) % len(fac)], fac[(idx * 3 + seed + 5) % len(fac)]]):
+                n = rng.randint(3, 6)
+                sim = rebound.Simulation()
+                sim.add(m=1.0)
+                for i in range(1, n):
+                    sim.add(m=10 ** (-rng.uniform(3, 6)), a=1.0 + 0.6 * i, e=rng.uniform(0, 0.1), inc=rng.uniform(0, 0.05), f=rng.uniform(0, 6))
+                sim.move_to_com()
+                sim.integrator = integ
+                sim.dt = 0.05
+                ri = sim.ri_whfast if integ == "whfast" else sim.ri_saba
+                for k, v in opts.items():
+                    setattr(ri, k, v)
+                ri.safe_mode = safe
+                ri.keep_unsynchronized = keep
+                if split in ("tp0", "tp1"):
+                    sim.N_active = rng.randint(1, n - 1)
+                    sim.testparticle_type = 1 if split == "tp1" else 0
+                if split == "negdt":
+                    sim.dt = -0.05
+                if split == "var":
+                    if integ != "whfast" or opts.get("coordinates") != "jacobi" or opts.get("kernel", "default") != "default":
+                        continue      # variations are only supported by WHFast in Jacobi coordinates with the default kernel
+                    var = sim.add_variation()
+                    for vp in var.particles:
+                        vp.x = rng.normal() * 1e-3; vp.vy = rng.normal() * 1e-3; vp.z = rng.normal() * 1e-3
+                    if rng.chance(0.5):
+                        sim.init_megno()
+                tr.rbv_trace_reset()
+                try:
+                    if pattern == "steps":
+                        sim.steps(3)
+                        sim.synchronize()
+                    elif pattern == "integrate-exact":      # shortened last step: dt changes, synchronize_before_dt_change
+                        sim.integrate(sim.t + 2.6 * sim.dt)
+                        sim.integrate(sim.t + 1.3 * sim.dt)
+                    elif pattern == "integrate-reversal":   # direction reversal between calls
+                        sim.integrate(sim.t + 2.0 * sim.dt, exact_finish_time=0)
+                        sim.integrate(sim.t - 1.5 * sim.dt)
+                    else:                                   # user edit of a synchronised simulation + documented recalculation flag
+                        sim.steps(2)
+                        sim.synchronize()
+                        for p in sim.particles[:n]:
+                            p.x += 0.01
+                        sim.ri_whfast.recalculate_coordinates_this_timestep = 1
+                        sim.steps(2)
+                        sim.synchronize()
+                except Exception as e:
+                    out.append(dict(integ=integ, opts=opts, safe=safe, split=split, pattern=pattern, keep=keep, error=str(e)))
+                    continue
+                calls = [l.split() for l in tr.rbv_trace_get().decode().splitlines()]
+                pairs = sorted({(int(c[1]), int(c[2])) for c in calls})
+                out.append(dict(integ=integ, opts=opts, safe=safe, split=split, pattern=pattern, keep=keep, N=n, N_active=sim.N_active,
+                                tpt=sim.testparticle_type, ncalls=len(calls), pairs=pairs,
+                                routines=sorted({c[0] for c in calls})))
 # ---------------------------------------------------------------- frame covariance at integrator level
 # The heliocentric / Jacobi maps used inside the integrators carry the centre of mass separately; if forward
 # and inverse maps are mutual inverses and slot 0 really is the COM, a run of the system shifted by d and
 # boosted by u equals the original run shifted by d + u t (exact arithmetic).  Includes TRACE/MERCURIUS
 # steps that are rejected and redone (close encounters, pericentre switches) and a COM far from the origin.
 cov = []
-def build(kind, integ, opts, d, u, rngs):
+def build(kind, integ, opts, d, u, rngs, role="plain"):
     sim = rebound.Simulation()
     sim.add(m=1.0)
     if kind == "regular":
@@ -85,6 +109,12 @@ def build(kind, integ, opts, d, u, rngs):
     else:                       # eccentric: pericentre switch of TRACE
         sim.add(m=1e-4, a=1.0, e=0.93, f=-0.35)
         sim.add(m=1e-4, a=4.0, e=0.1, f=2.0)
+    if role != "plain":   # test particles behind the active ones: massless (type 0) or with a small mass (type 1)
+        nact = sim.N
+        sim.add(m=0.0 if role == "tp0" else 1e-7, a=3.3, e=0.05, f=2.0, inc=0.02)
+        sim.add(m=0.0 if role == "tp0" else 1e-8, a=0.6, e=0.02, f=4.0)
+        sim.N_active = nact
+        sim.testparticle_type = 0 if role == "tp0" else 1
     sim.move_to_com()
     for p in sim.particles:
         p.x += d[0]; p.y += d[1]; p.z += d[2]; p.vx += u[0]; p.vy += u[1]; p.vz += u[2]
@@ -99,19 +129,29 @@ cconfigs = [("whfast", dict(coordinates=c)) for c in ("jacobi", "democratichelio
 cconfigs += [("whfast", dict(coordinates=c, _negdt=1)) for c in ("jacobi", "democraticheliocentric", "whds", "barycentric")]
 cconfigs += [("mercurius", dict(_negdt=1)), ("whfast", dict(coordinates="jacobi", corrector=11, safe_mode=0)), ("saba", dict(type="4")), ("saba", dict(type="cl4")),
              ("mercurius", {}), ("mercurius", dict(safe_mode=0)), ("trace", {}), ("trace", dict(peri_mode="PARTIAL_BS")), ("trace", dict(peri_mode="FULL_IAS15"))]
+ROLES = ("plain", "tp0", "tp1")
+CALLS = ("steps", "integrate")      # integrate: exact-finish output calls (shortened steps, dt restored) instead of single steps
+cidx = 0
 for integ, opts in cconfigs:
     for kind in ("regular", "encounter", "approach", "eccentric"):
-        if kind != "regular" and integ not in ("mercurius", "trace"):
-            continue
+      if kind != "regular" and integ not in ("mercurius", "trace"):
+          continue
+      cidx += 1
+      fac = [(ro, ca) for ro in ROLES for ca in CALLS]
+      for role, call in (fac if thorough else [fac[0], fac[(cidx + seed) % 5 + 1]]):
         seedk = rng.next()
         d = (10.0, -7.0, 3.0); u = (0.3, -0.2, 0.1)
         try:
-            a = build(kind, integ, opts, (0, 0, 0), (0, 0, 0), SplitMix(seedk))
-            b = build(kind, integ, opts, d, u, SplitMix(seedk))
+            a = build(kind, integ, opts, (0, 0, 0), (0, 0, 0), SplitMix(seedk), role)
+            b = build(kind, integ, opts, d, u, SplitMix(seedk), role)
             nst = 70 if kind == "approach" else 40
             worst = 0.0; where = None
             for st in range(nst):
-                a.steps(1); b.steps(1)
+                if call == "steps":
+                    a.steps(1); b.steps(1)
+                else:
+                    tt = a.t + 0.83 * a.dt
+                    a.integrate(tt); b.integrate(tt)
                 if st % 5 == 4 or st == nst - 1:
                     a2 = a.copy(); b2 = b.copy(); a2.synchronize(); b2.synchronize()
                     t = a2.t
@@ -121,9 +161,9 @@ for integ, opts in cconfigs:
                             e = abs(xb - (xa + d[c] + u[c] * t))
                             if e > worst:
                                 worst = e; where = (st, i, c)
-            cov.append(dict(integ=integ, opts=opts, kind=kind, worst=worst, where=where, t=a.t, steps_done=[a.steps_done, b.steps_done]))
+            cov.append(dict(integ=integ, opts=opts, kind=kind, role=role, call=call, worst=worst, where=where, t=a.t, steps_done=[a.steps_done, b.steps_done]))
         except Exception as e:
-            cov.append(dict(integ=integ, opts=opts, kind=kind, error=repr(e)[:200]))
+            cov.append(dict(integ=integ, opts=opts, kind=kind, role=role, call=call, error=repr(e)[:200]))
 # first-step rejection scan: a pair starts just outside the critical radius and closes in during the very first step
 # (the stored centre of mass is still the initial zero then); plus user frame shifts between steps
 def approach_pair(sep, vclose, d, u):
